@@ -19,6 +19,8 @@ const (
 	c29CoreV1  = "k8s.io/api/core/v1"
 	c29APIv3   = "github.com/projectcalico/api/pkg/apis/projectcalico/v3"
 	c29ConvGo  = "libcalico-go/lib/backend/k8s/conversion/conversion.go"
+	c29UpdPkg  = "libcalico-go/lib/backend/syncersv1/updateprocessors"
+	c29WepGo   = "libcalico-go/lib/backend/k8s/conversion/workload_endpoint_default.go"
 )
 
 func init() {
@@ -34,13 +36,19 @@ func init() {
 			"(dir) the provenance of every match field of the returned v3 policy is exactly the expected set of k8s fields: ingress rules' Source.{Selector,NamespaceSelector,Nets,NotNets} derive from " +
 			"NetworkPolicyIngressRule.From → NetworkPolicyPeer.{PodSelector,NamespaceSelector}, IPBlock.CIDR, IPBlock.Except respectively and nothing reaches Destination except ports; mirrored for egress (To → Destination, nothing reaches Source); " +
 			"ports only reach Destination.Ports and derive from Port and EndPort; Protocol derives from NetworkPolicyPort.Protocol or the constant TCP, stored under Protocol==nil; Action is the constant Allow; " +
-			"pod selectors are converted with SelectorPod and namespace selectors with SelectorNamespace.",
+			"pod selectors are converted with SelectorPod and namespace selectors with SelectorNamespace; " +
+			"(types) a v3 PolicyType constant is placed into the Types list only on paths that established that spec.policyTypes contains the Kubernetes constant of the same value " +
+			"(path cut over comparison edges, bool flags followed through phis/helpers; Ingress additionally under 'no type established'), and every condition such a site is control-dependent on " +
+			"(post-dominator control dependence, transitive) has a provenance inside spec.policyTypes — nothing derived from spec.ingress/spec.egress; " +
+			"(ownlabels) in the conversion and update-processor packages a store of projectcalico.org/namespace, /orchestrator or /serviceaccount into a label map is never followed (CFG reachability, closures placed at their MakeClosure) " +
+			"by a bulk copy, a non-constant-key store or a delete/clear on the same map, so the labels that namespace-scope converted policies cannot be overridden by the pod's own labels.",
 		NotDecided: "That the generated selector strings and port strings mean the same as the k8s objects (string formats, all() for the empty namespace selector, SimplifyPorts arithmetic); " +
-			"evaluation of the converted policy on traffic; PolicyTypes→Types (control dependence only; the switch exhaustiveness is decided); the v3→model conversion in syncersv1/updateprocessors; AdminNetworkPolicy conversion.",
+			"evaluation of the converted policy on traffic; that the PolicyTypes flag variables are initialised false is decided, but not what Felix does with a given Types list; the values stored under the owned label keys; label maps built outside the two packages (clientv3); the v3→model conversion in syncersv1/updateprocessors; AdminNetworkPolicy conversion.",
 		Assumptions: []string{
 			"go/types + go/ssa (x/tools v0.50.0) model of the current source; k8s.io/api and apimachinery types from the module cache version selected by /repo/go.mod",
 			"data dependence only: opaque callees (fmt.Sprintf, strings.Join, net.ParseCIDR, numorstring.PortFromString…) derive their result from all their arguments and nothing else",
 			"no writes through pointers that escape to opaque callees",
+			"ownlabels: callees without a body other than maps.Copy/Insert/DeleteFunc and the builtins delete/clear do not write the label map passed to them",
 		},
 		Run: runC29,
 		Fixtures: []Fixture{
@@ -67,6 +75,22 @@ func init() {
 				Old: "\t\tif p.Protocol != nil {\n\t\t\tprotval := kapiv1.Protocol(fmt.Sprintf(\"%s\", *p.Protocol))\n\t\t\tport.Protocol = &protval\n\t\t} else {", New: "\t\tif p.Protocol == nil {\n\t\t\tprotval := kapiv1.Protocol(fmt.Sprintf(\"%s\", \"UDP\"))\n\t\t\tport.Protocol = &protval\n\t\t} else {", Expect: "C29.dir/default-protocol"},
 			{Name: "namespace selector converted as a pod selector", File: c29ConvGo,
 				Old: "k8sSelectorToCalico(peer.NamespaceSelector, SelectorNamespace)", New: "k8sSelectorToCalico(peer.NamespaceSelector, SelectorPod)", Expect: "C29.dir/seltype"},
+			{Name: "Egress type inferred from the presence of egress rules", File: c29ConvGo,
+				Old: "\tif egress {\n\t\tpolicyTypes = append(policyTypes, apiv3.PolicyTypeEgress)\n", New: "\tif egress || len(egressRules) > 0 {\n\t\tpolicyTypes = append(policyTypes, apiv3.PolicyTypeEgress)\n", Expect: "C29.types/guard/PolicyTypeEgress"},
+			{Name: "Egress type dropped when the egress section is empty", File: c29ConvGo,
+				Old: "\tif egress {\n\t\tpolicyTypes = append(policyTypes, apiv3.PolicyTypeEgress)\n", New: "\tif egress && len(np.Spec.Egress) > 0 {\n\t\tpolicyTypes = append(policyTypes, apiv3.PolicyTypeEgress)\n", Expect: "C29.types/indep/PolicyTypeEgress"},
+			{Name: "Ingress type inferred from the presence of ingress rules", File: c29ConvGo,
+				Old: "\tif ingress {\n\t\tpolicyTypes = append(policyTypes, apiv3.PolicyTypeIngress)\n", New: "\tif ingress || len(ingressRules) > 0 {\n\t\tpolicyTypes = append(policyTypes, apiv3.PolicyTypeIngress)\n", Expect: "C29.types/guard/PolicyTypeIngress"},
+			{Name: "policyTypes flags crossed", File: c29ConvGo,
+				Old: "\t\tcase networkingv1.PolicyTypeIngress:\n\t\t\tingress = true\n\t\tcase networkingv1.PolicyTypeEgress:\n\t\t\tegress = true\n", New: "\t\tcase networkingv1.PolicyTypeIngress:\n\t\t\tegress = true\n\t\tcase networkingv1.PolicyTypeEgress:\n\t\t\tingress = true\n", Expect: "C29.types/guard/PolicyTypeEgress"},
+			{Name: "egress flag preset from the rule list", File: c29ConvGo,
+				Old: "\tegress := false\n", New: "\tegress := len(egressRules) > 0\n", Expect: "C29.types/guard/PolicyTypeEgress"},
+			{Name: "pod labels copied over the Calico-owned labels", File: c29WepGo,
+				Old: "\tmaps.Copy(labels, pod.Labels)\n\tlabels[apiv3.LabelNamespace] = pod.Namespace\n\tlabels[apiv3.LabelOrchestrator] = apiv3.OrchestratorKubernetes\n", New: "\tlabels[apiv3.LabelNamespace] = pod.Namespace\n\tlabels[apiv3.LabelOrchestrator] = apiv3.OrchestratorKubernetes\n\tmaps.Copy(labels, pod.Labels)\n", Expect: "C29.ownlabels/defaultWorkloadEndpointConverter.podToDefaultWorkloadEndpoint/LabelNamespace"},
+			{Name: "pod labels looped in after the serviceaccount label", File: c29WepGo,
+				Old: "\t\tlabels[apiv3.LabelServiceAccount] = pod.Spec.ServiceAccountName\n\t}\n", New: "\t\tlabels[apiv3.LabelServiceAccount] = pod.Spec.ServiceAccountName\n\t}\n\tfor k, v := range pod.Labels {\n\t\tlabels[k] = v\n\t}\n", Expect: "C29.ownlabels/defaultWorkloadEndpointConverter.podToDefaultWorkloadEndpoint/LabelServiceAccount"},
+			{Name: "network set labels copied over the namespace label", File: "libcalico-go/lib/backend/syncersv1/updateprocessors/networksetprocessor.go",
+				Old: "\tmaps.Copy(labelsWithCalicoNamespace, v3res.GetLabels())\n\tlabelsWithCalicoNamespace[apiv3.LabelNamespace] = v3res.Namespace\n", New: "\tlabelsWithCalicoNamespace[apiv3.LabelNamespace] = v3res.Namespace\n\tmaps.Copy(labelsWithCalicoNamespace, v3res.GetLabels())\n", Expect: "C29.ownlabels/convertNetworkSetV2ToV1Value/LabelNamespace"},
 			{Name: "ports matched on the source", File: c29ConvGo,
 				Old: "\t\t\t\t\tDestination: apiv3.EntityRule{\n\t\t\t\t\t\tPorts: calicoPorts,\n\t\t\t\t\t},", New: "", Expect: "C29.dir/Ingress.Destination.Ports"},
 		},
@@ -108,7 +132,7 @@ func c29Resolve(c *Ctx, p *Prog) *c29Types {
 }
 
 func runC29(c *Ctx) {
-	p := c.Load(c29ConvPkg)
+	p := c.Load(c29ConvPkg, c29UpdPkg)
 	ty := c29Resolve(c, p)
 	top := p.Func(c29ConvPkg, "converter.K8sNetworkPolicyToCalico")
 	if top == nil {
@@ -125,9 +149,14 @@ func runC29(c *Ctx) {
 	c.Rule("C29.enums", "E-ENUM", "every site comparing a LabelSelectorOperator/PolicyType value with constants covers every constant declared for the type", 6)
 	c.Rule("C29.dir", "E-FLOW", "provenance of every match field of the returned v3 policy equals the expected k8s fields (direction wiring, Except→NotNets, ports→Destination, Action Allow, default TCP, selector kinds)", 55)
 
+	c.Rule("C29.types", "E-GUARD/E-FLOW", "a v3 PolicyType constant is placed into Spec.Types only on paths that established that spec.policyTypes contains the Kubernetes constant of the same value (Ingress additionally as the default when no type was established), and every condition such a site is control-dependent on derives from spec.policyTypes only (nothing derived from the rule sections)", 4)
+	c.Rule("C29.ownlabels", "E-ORDER", "a store of a Calico-owned label key (projectcalico.org/namespace, /orchestrator, /serviceaccount) into a label map is never followed by a write of user-controlled keys into the same map (bulk copy, non-constant key, delete/clear): the owned value wins over a pod's own label of that key", 5)
+
 	c29Cover(c, p, ty, cl)
 	c29Enums(c, p, ty, cl)
 	c29Dir(c, p, ty, top, cl)
+	c29TypesRule(c, p, ty, cl)
+	c29OwnLabels(c, p)
 }
 
 // ------------------------------------------------------------------ cover --
@@ -606,5 +635,692 @@ func c29ShortPath(v ssa.Value) string {
 			return s
 		}
 		s = s[:i] + "<elem>" + s[j+1:]
+	}
+}
+
+// ------------------------------------------------------------------ types --
+
+// c29TypesCtx carries what the PolicyTypes→Types checks need.
+type c29TypesCtx struct {
+	p    *Prog
+	ty   *c29Types
+	sl   *c29Slicer
+	v3PT *types.TypeName
+	lax  int // >0 while inside a local helper: the compared value is (an element of) a parameter
+}
+
+func c29IsNamed(t types.Type, tn *types.TypeName) bool {
+	n, ok := types.Unalias(t).(*types.Named)
+	return ok && n.Obj() == tn
+}
+
+// fromPolicyTypes: v derives from NetworkPolicySpec.PolicyTypes.
+func (t *c29TypesCtx) fromPolicyTypes(v ssa.Value) bool {
+	if t.lax > 0 {
+		return true
+	}
+	t.sl.SliceVal(v)
+	return t.sl.Has("NetworkPolicySpec.PolicyTypes")
+}
+
+// c29CutLive computes the blocks reachable from fn's entry when the If edges
+// accepted by pred are removed, and reports whether a CFG edge is still live.
+func c29CutLive(fn *ssa.Function, pred EdgePred) (reach map[*ssa.BasicBlock]bool, edgeLive func(from, to *ssa.BasicBlock) bool) {
+	cut := func(b *ssa.BasicBlock, k int) bool {
+		ifi, ok := b.Instrs[len(b.Instrs)-1].(*ssa.If)
+		if !ok || len(b.Succs) != 2 || b.Succs[0] == b.Succs[1] {
+			return false
+		}
+		cnd, pol := stripNot(ifi.Cond, k == 0)
+		return pred(cnd, pol)
+	}
+	reach = map[*ssa.BasicBlock]bool{}
+	st := []*ssa.BasicBlock{fn.Blocks[0]}
+	for len(st) > 0 {
+		b := st[len(st)-1]
+		st = st[:len(st)-1]
+		if reach[b] {
+			continue
+		}
+		reach[b] = true
+		if isPanicBlock(b) {
+			continue
+		}
+		for k, s := range b.Succs {
+			if !cut(b, k) {
+				st = append(st, s)
+			}
+		}
+	}
+	edgeLive = func(from, to *ssa.BasicBlock) bool {
+		if !reach[from] || isPanicBlock(from) {
+			return false
+		}
+		for k, s := range from.Succs {
+			if s == to && !cut(from, k) {
+				return true
+			}
+		}
+		return false
+	}
+	return
+}
+
+// typeFact: on the edge where cnd has truth value pol, "spec.policyTypes contains
+// the constant kc" is established.  Recognised shapes: a comparison of a value
+// taken from spec.policyTypes with kc; slices.Contains(spec.policyTypes, kc); a
+// bool flag (phi / address-taken local / result of a local helper) that is only
+// true where such a comparison held.
+func (t *c29TypesCtx) typeFact(cnd ssa.Value, pol bool, kc *types.Const, seen map[ssa.Value]bool) bool {
+	cnd, pol = stripNot(cnd, pol)
+	if t.baseFact(cnd, pol, kc) {
+		return true
+	}
+	if _, isCmp := cnd.(*ssa.BinOp); isCmp || !pol {
+		return false
+	}
+	return t.impliesType(cnd, kc, seen)
+}
+
+// baseFact: the edge (cnd, pol) directly compares a value taken from
+// spec.policyTypes with kc (==, !=) or is slices.Contains(spec.policyTypes, kc).
+func (t *c29TypesCtx) baseFact(cnd ssa.Value, pol bool, kc *types.Const) bool {
+	cnd, pol = stripNot(cnd, pol)
+	switch x := cnd.(type) {
+	case *ssa.BinOp:
+		if (x.Op != token.EQL && x.Op != token.NEQ) || (x.Op == token.EQL) != pol {
+			return false
+		}
+		for _, xy := range [2][2]ssa.Value{{x.X, x.Y}, {x.Y, x.X}} {
+			k, isC := constOf(xy[1])
+			if isC && c29IsNamed(xy[0].Type(), t.ty.ptT) && constant.Compare(k, token.EQL, kc.Val()) && t.fromPolicyTypes(xy[0]) {
+				return true
+			}
+		}
+	case *ssa.Call:
+		cc := x.Common()
+		if f := calleeOf(cc); pol && f != nil && f.Pkg() != nil && f.Pkg().Path() == "slices" && f.Name() == "Contains" && len(cc.Args) == 2 {
+			k, isC := constOf(cc.Args[1])
+			return isC && constant.Compare(k, token.EQL, kc.Val()) && t.fromPolicyTypes(cc.Args[0])
+		}
+	}
+	return false
+}
+
+// impliesType: whenever bool value v is true, spec.policyTypes contains kc.
+func (t *c29TypesCtx) impliesType(v ssa.Value, kc *types.Const, seen map[ssa.Value]bool) bool {
+	if seen[v] {
+		return true // coinductive: a loop-carried flag keeps what the other edges establish
+	}
+	seen[v] = true
+	eqK := func(cnd ssa.Value, pol bool) bool { return t.baseFact(cnd, pol, kc) }
+	switch x := v.(type) {
+	case *ssa.Const:
+		return x.Value != nil && x.Value.Kind() == constant.Bool && !constant.BoolVal(x.Value)
+	case *ssa.UnOp:
+		if x.Op == token.NOT {
+			return false
+		}
+		if x.Op != token.MUL {
+			return false
+		}
+		al, ok := x.X.(*ssa.Alloc)
+		if !ok || al.Referrers() == nil {
+			return false
+		}
+		for _, r := range *al.Referrers() {
+			switch y := r.(type) {
+			case *ssa.DebugRef:
+			case *ssa.UnOp:
+				if y.Op != token.MUL {
+					return false
+				}
+			case *ssa.Store:
+				if y.Addr != al {
+					return false
+				}
+				if guardedCut(y, eqK) || t.impliesType(y.Val, kc, seen) {
+					continue
+				}
+				return false
+			default:
+				return false // escapes (closure capture, address passed on)
+			}
+		}
+		return true
+	case *ssa.BinOp:
+		return t.baseFact(x, true, kc)
+	case *ssa.Phi:
+		_, live := c29CutLive(x.Parent(), eqK)
+		for i, e := range x.Edges {
+			if i >= len(x.Block().Preds) {
+				return false
+			}
+			if !live(x.Block().Preds[i], x.Block()) {
+				continue // this edge is only taken after the comparison with kc held
+			}
+			if !t.impliesType(e, kc, seen) {
+				return false
+			}
+		}
+		return true
+	case *ssa.Extract:
+		if call, ok := x.Tuple.(*ssa.Call); ok {
+			return t.callImplies(call, x.Index, kc, seen)
+		}
+	case *ssa.Call:
+		return t.callImplies(x, 0, kc, seen)
+	}
+	return false
+}
+
+func (t *c29TypesCtx) callImplies(call *ssa.Call, idx int, kc *types.Const, seen map[ssa.Value]bool) bool {
+	cc := call.Common()
+	if idx == 0 && t.baseFact(call, true, kc) {
+		return true
+	}
+	fn := calleeFn(cc)
+	if fn == nil || fn.Blocks == nil || len(seen) > 64 {
+		return false
+	}
+	// a local helper computing the flag from spec.policyTypes: every returned value must imply it
+	okArg := false
+	for _, a := range cc.Args {
+		if t.fromPolicyTypes(a) {
+			okArg = true
+		}
+	}
+	if !okArg {
+		return false
+	}
+	rets := returnsOf(fn)
+	if len(rets) == 0 {
+		return false
+	}
+	for _, r := range rets {
+		if idx >= len(r.Results) || !t.impliesTypeInCallee(r.Results[idx], kc, seen) {
+			return false
+		}
+	}
+	return true
+}
+
+// impliesTypeInCallee: like impliesType, but inside a helper the compared value is
+// an element of a parameter (provenance cannot name the k8s field there), so the
+// comparison side only has to have the k8s PolicyType type.
+func (t *c29TypesCtx) impliesTypeInCallee(v ssa.Value, kc *types.Const, seen map[ssa.Value]bool) bool {
+	t.lax++
+	defer func() { t.lax-- }()
+	return t.impliesType(v, kc, seen)
+}
+
+// isNoTypesYet: on the edge (cnd, pol) the slice of policy types (the v3 list
+// being built, or spec.policyTypes itself) is known to be empty.
+func (t *c29TypesCtx) isNoTypesYet(cnd ssa.Value, pol bool) bool {
+	bo, ok := cnd.(*ssa.BinOp)
+	if !ok {
+		return false
+	}
+	typesList := func(v ssa.Value) bool {
+		sl, ok := v.Type().Underlying().(*types.Slice)
+		return ok && (c29IsNamed(sl.Elem(), t.v3PT) || c29IsNamed(sl.Elem(), t.ty.ptT))
+	}
+	lenOf := func(v ssa.Value) bool {
+		call, ok := v.(*ssa.Call)
+		if !ok {
+			return false
+		}
+		b, isB := call.Common().Value.(*ssa.Builtin)
+		return isB && b.Name() == "len" && len(call.Common().Args) == 1 && typesList(call.Common().Args[0])
+	}
+	intIs := func(v ssa.Value, n int64) bool {
+		k, ok := constOf(v)
+		if !ok || k.Kind() != constant.Int {
+			return false
+		}
+		i, exact := constant.Int64Val(k)
+		return exact && i == n
+	}
+	switch {
+	case (bo.Op == token.EQL || bo.Op == token.NEQ) && (bo.Op == token.EQL) == pol:
+		return (lenOf(bo.X) && intIs(bo.Y, 0)) || (lenOf(bo.Y) && intIs(bo.X, 0)) ||
+			(typesList(bo.X) && isNilConst(bo.Y)) || (typesList(bo.Y) && isNilConst(bo.X))
+	case bo.Op == token.GTR && !pol: // !(len > 0)
+		return lenOf(bo.X) && intIs(bo.Y, 0)
+	case bo.Op == token.LSS && !pol: // !(0 < len)
+		return lenOf(bo.Y) && intIs(bo.X, 0)
+	case bo.Op == token.LSS && pol: // len < 1
+		return lenOf(bo.X) && intIs(bo.Y, 1)
+	case bo.Op == token.GEQ && !pol: // !(len >= 1)
+		return lenOf(bo.X) && intIs(bo.Y, 1)
+	}
+	return false
+}
+
+// c29ControlConds: the If instructions the block of `in` is (transitively)
+// control-dependent on (Ferrante: X is control-dependent on edge B→s iff X
+// post-dominates s and does not post-dominate B).
+func c29ControlConds(in ssa.Instruction) []*ssa.If {
+	fn := in.Parent()
+	pd := postDominators(fn)
+	var out []*ssa.If
+	seenB := map[*ssa.BasicBlock]bool{}
+	work := []*ssa.BasicBlock{in.Block()}
+	done := map[*ssa.BasicBlock]bool{}
+	for len(work) > 0 {
+		x := work[len(work)-1]
+		work = work[:len(work)-1]
+		if done[x] {
+			continue
+		}
+		done[x] = true
+		for _, b := range fn.Blocks {
+			ifi, ok := b.Instrs[len(b.Instrs)-1].(*ssa.If)
+			if !ok || len(b.Succs) != 2 || b.Succs[0] == b.Succs[1] {
+				continue
+			}
+			if b != x && pd[b][x] {
+				continue
+			}
+			dep := false
+			for _, s := range b.Succs {
+				if pd[s][x] {
+					dep = true
+				}
+			}
+			if dep && !(pd[b.Succs[0]][x] && pd[b.Succs[1]][x] && b != x) {
+				if !seenB[b] {
+					seenB[b] = true
+					out = append(out, ifi)
+				}
+				work = append(work, b)
+			}
+		}
+	}
+	return out
+}
+
+func c29TypesRule(c *Ctx, p *Prog, ty *c29Types, cl map[*ssa.Function]bool) {
+	v3PT, _ := p.LookupExt(c29APIv3, "PolicyType").(*types.TypeName)
+	v3In, _ := p.LookupExt(c29APIv3, "PolicyTypeIngress").(*types.Const)
+	npT := p.LookupExt(c29NetV1, "NetworkPolicy")
+	if v3PT == nil || v3In == nil || npT == nil {
+		c.Lost("v3.PolicyType / v3.PolicyTypeIngress / networking/v1.NetworkPolicy")
+	}
+	var tracked []types.Object
+	for _, n := range ty.order {
+		tracked = append(tracked, ty.k8s[n])
+	}
+	tracked = append(tracked, npT)
+	t := &c29TypesCtx{p: p, ty: ty, sl: newC29Slicer(p, tracked...), v3PT: v3PT}
+
+	v3Consts := c29ConstsOfType(v3PT)
+	k8sConsts := c29ConstsOfType(ty.ptT)
+	if len(v3Consts) < 2 {
+		c.Lost("constants of v3.PolicyType (found %d)", len(v3Consts))
+	}
+	var fns []*ssa.Function
+	for f := range cl {
+		fns = append(fns, f)
+	}
+	sort.Slice(fns, func(i, j int) bool { return fns[i].Pos() < fns[j].Pos() })
+
+	allowedCtl := map[string]bool{"NetworkPolicy.Spec": true, "NetworkPolicySpec.PolicyTypes": true, "NetworkPolicy.ObjectMeta": true, "NetworkPolicy.TypeMeta": true}
+	for _, vc := range v3Consts {
+		var kc *types.Const
+		for _, k := range k8sConsts {
+			if constant.Compare(k.Val(), token.EQL, vc.Val()) {
+				kc = k
+			}
+		}
+		if kc == nil {
+			c.Lost("no networking/v1.PolicyType constant with the value of v3.%s", vc.Name())
+		}
+		isDefault := vc == v3In
+		// sites: stores of this constant (typed v3.PolicyType) in the conversion closure
+		var sites []*ssa.Store
+		for _, fn := range fns {
+			allInstrs(fn, false, func(_ *ssa.Function, in ssa.Instruction) {
+				st, ok := in.(*ssa.Store)
+				if !ok {
+					return
+				}
+				k, isC := st.Val.(*ssa.Const)
+				if isC && k.Value != nil && c29IsNamed(k.Type(), v3PT) && constant.Compare(k.Value, token.EQL, vc.Val()) {
+					sites = append(sites, st)
+				}
+			})
+		}
+		gkey := "C29.types/guard/" + vc.Name()
+		ikey := "C29.types/indep/" + vc.Name()
+		if len(sites) == 0 {
+			c.Violate(gkey, p.Pos(vc.Pos()), "no site in the closure of K8sNetworkPolicyToCalico places v3.%s into a policy-type list: a NetworkPolicy whose policyTypes contain %s is converted without that type", vc.Name(), kc.Name())
+			continue
+		}
+		var gbad, ibad []string
+		nDefault := 0
+		for _, st := range sites {
+			fact := func(cnd ssa.Value, pol bool) bool { return t.typeFact(cnd, pol, kc, map[ssa.Value]bool{}) }
+			byFlag := guardedCut(st, fact)
+			byDefault := false
+			if !byFlag && isDefault {
+				byDefault = guardedCut(st, anyOf(fact, t.isNoTypesYet))
+				if byDefault {
+					nDefault++
+				}
+			}
+			conds := c29ControlConds(st)
+			if !byFlag && !byDefault {
+				var cs []string
+				for _, ifi := range conds {
+					cs = append(cs, c29CondStr(ifi.Cond))
+				}
+				what := "spec.policyTypes contains " + kc.Name()
+				if isDefault {
+					what += " (or that no policy type was established: the Ingress default)"
+				}
+				gbad = append(gbad, fmt.Sprintf("%s: v3.%s is added on a path that did not establish that %s; the site is control-dependent on %v", c29SitePos(p, st), vc.Name(), what, cs))
+			}
+			for _, ifi := range conds {
+				t.sl.SliceVal(ifi.Cond)
+				var surplus []string
+				for _, l := range t.sl.FieldLeaves() {
+					if !allowedCtl[l] {
+						surplus = append(surplus, l)
+					}
+				}
+				if t.sl.overflow {
+					c.Undecided(ikey, c29SitePos(p, st), "slicer step budget exhausted")
+				}
+				if len(surplus) > 0 {
+					ibad = append(ibad, fmt.Sprintf("%s: whether v3.%s is added depends on condition %s which derives from %v (only spec.policyTypes may decide the policy types; rule sections must not)", c29SitePos(p, st), vc.Name(), c29CondStr(ifi.Cond), surplus))
+				}
+			}
+		}
+		site := c29SitePos(p, sites[0])
+		c.Check(len(gbad) == 0, gkey, site,
+			fmt.Sprintf("%d site(s) add v3.%s, each only where spec.policyTypes was found to contain %s (%d as the no-types default)", len(sites), vc.Name(), kc.Name(), nDefault),
+			strings.Join(gbad, "; "))
+		c.Check(len(ibad) == 0, ikey, site,
+			fmt.Sprintf("every condition controlling the %d site(s) derives from spec.policyTypes only", len(sites)),
+			strings.Join(ibad, "; "))
+	}
+}
+
+// c29SitePos: a store of a constant has no position of its own; use the next
+// positioned instruction of the block (the append that consumes the element).
+func c29SitePos(p *Prog, st *ssa.Store) string {
+	if st.Pos().IsValid() {
+		return p.Pos(st.Pos())
+	}
+	after := false
+	for _, in := range st.Block().Instrs {
+		if in == ssa.Instruction(st) {
+			after = true
+			continue
+		}
+		if after && in.Pos().IsValid() {
+			return p.Pos(in.Pos())
+		}
+	}
+	return p.Pos(st.Parent().Pos())
+}
+
+// c29CondStr renders a branch condition compactly (local variable name for a phi).
+func c29CondStr(v ssa.Value) string {
+	v, pol := stripNot(v, true)
+	s := ""
+	if ph, ok := v.(*ssa.Phi); ok && ph.Comment != "" {
+		s = ph.Comment
+	} else {
+		s = c29ShortPath(v)
+		if len(s) > 100 {
+			s = s[:100] + "…"
+		}
+	}
+	if !pol {
+		s = "!" + s
+	}
+	return "`" + s + "`"
+}
+
+// -------------------------------------------------------------- ownlabels --
+
+// c29MapRoot canonicalises a map-typed value: loads of an (address-taken) local
+// or of a captured variable resolve to the local's Alloc.
+func c29MapRoot(v ssa.Value) ssa.Value {
+	for i := 0; i < 8; i++ {
+		switch x := v.(type) {
+		case *ssa.ChangeType:
+			v = x.X
+			continue
+		case *ssa.UnOp:
+			if x.Op == token.MUL {
+				v = x.X
+				continue
+			}
+		case *ssa.FreeVar:
+			cl := x.Parent()
+			if encl := cl.Parent(); encl != nil {
+				idx := -1
+				for i, fv := range cl.FreeVars {
+					if fv == x {
+						idx = i
+					}
+				}
+				var bound ssa.Value
+				allInstrs(encl, false, func(_ *ssa.Function, in ssa.Instruction) {
+					if mc, ok := in.(*ssa.MakeClosure); ok && mc.Fn == cl && idx >= 0 && idx < len(mc.Bindings) {
+						bound = mc.Bindings[idx]
+					}
+				})
+				if bound != nil {
+					v = bound
+					continue
+				}
+			}
+		}
+		break
+	}
+	return v
+}
+
+// c29PosIn maps an instruction of top or of one of its (nested) closures to an
+// instruction of top: itself, or the MakeClosure that creates its function.
+func c29PosIn(top *ssa.Function, in ssa.Instruction) ssa.Instruction {
+	fn := in.Parent()
+	for fn != nil && fn != top {
+		encl := fn.Parent()
+		if encl == nil {
+			return nil
+		}
+		var mk ssa.Instruction
+		allInstrs(encl, false, func(_ *ssa.Function, x ssa.Instruction) {
+			if mc, ok := x.(*ssa.MakeClosure); ok && mc.Fn == fn {
+				mk = x
+			}
+		})
+		if mk == nil {
+			return nil
+		}
+		in, fn = mk, encl
+	}
+	if fn == nil {
+		return nil
+	}
+	return in
+}
+
+// c29WritesParam: does fn (a function with a body) write user-controlled keys into
+// its idx-th parameter (a map)?
+func c29WritesParam(fn *ssa.Function, idx, depth int) bool {
+	if fn == nil || fn.Blocks == nil || idx >= len(fn.Params) || depth > 3 {
+		return false
+	}
+	root := ssa.Value(fn.Params[idx])
+	w := false
+	allInstrs(fn, true, func(_ *ssa.Function, in ssa.Instruction) {
+		if c29Clobber(in, root, depth+1) != "" {
+			w = true
+		}
+	})
+	return w
+}
+
+// c29Clobber: does `in` write keys that a user controls into the map rooted at
+// root (or remove keys from it)?  Returns a description, "" if not.
+func c29Clobber(in ssa.Instruction, root ssa.Value, depth int) string {
+	switch x := in.(type) {
+	case *ssa.MapUpdate:
+		if c29MapRoot(x.Map) != root {
+			return ""
+		}
+		if _, isC := constOf(x.Key); !isC {
+			return "a store with the non-constant key " + c29ShortPath(x.Key)
+		}
+	case ssa.CallInstruction:
+		cc := x.Common()
+		for i, a := range cc.Args {
+			if _, isMap := a.Type().Underlying().(*types.Map); !isMap || c29MapRoot(a) != root {
+				continue
+			}
+			if b, ok := cc.Value.(*ssa.Builtin); ok {
+				switch b.Name() {
+				case "clear":
+					return "clear()"
+				case "delete":
+					if _, isC := constOf(cc.Args[1]); !isC {
+						return "delete() with a non-constant key"
+					}
+				}
+				continue
+			}
+			f := calleeOf(cc)
+			if f != nil && f.Pkg() != nil && f.Pkg().Path() == "maps" {
+				switch f.Name() {
+				case "Copy", "Insert":
+					if i == 0 {
+						return "maps." + f.Name() + " into it"
+					}
+				case "DeleteFunc":
+					return "maps.DeleteFunc"
+				}
+				continue
+			}
+			if fn := calleeFn(cc); fn != nil && fn.Blocks != nil {
+				pi := i
+				if cc.IsInvoke() {
+					continue
+				}
+				if c29WritesParam(fn, pi, depth) {
+					return "a call of " + fnName(fn) + ", which writes non-constant keys into it"
+				}
+			}
+		}
+	}
+	return ""
+}
+
+func c29OwnLabels(c *Ctx, p *Prog) {
+	type owned struct {
+		k    *types.Const
+		must bool // a store must exist in the pod conversion
+	}
+	var keys []owned
+	for _, n := range []struct {
+		name string
+		must bool
+	}{{"LabelNamespace", true}, {"LabelOrchestrator", true}, {"LabelServiceAccount", false}} {
+		k, _ := p.LookupExt(c29APIv3, n.name).(*types.Const)
+		if k == nil || k.Val().Kind() != constant.String {
+			c.Lost("v3.%s", n.name)
+		}
+		keys = append(keys, owned{k, n.must})
+	}
+	inScope := func(f *ssa.Function) bool {
+		t := topFn(f)
+		return t.Pkg != nil && (t.Pkg == p.SSAPkg(c29ConvPkg) || t.Pkg == p.SSAPkg(c29UpdPkg))
+	}
+	var fns []*ssa.Function
+	for _, f := range p.AllFuncs() {
+		if inScope(f) && f.Blocks != nil {
+			fns = append(fns, f)
+		}
+	}
+	sort.Slice(fns, func(i, j int) bool { return fns[i].Pos() < fns[j].Pos() })
+	seenInConv := map[*types.Const]bool{}
+	n := 0
+	for _, fn := range fns {
+		allInstrs(fn, false, func(_ *ssa.Function, in ssa.Instruction) {
+			mu, ok := in.(*ssa.MapUpdate)
+			if !ok {
+				return
+			}
+			kv, isC := constOf(mu.Key)
+			if !isC || kv.Kind() != constant.String {
+				return
+			}
+			var ok0 *owned
+			for i := range keys {
+				if constant.Compare(kv, token.EQL, keys[i].k.Val()) {
+					ok0 = &keys[i]
+				}
+			}
+			if ok0 == nil {
+				return
+			}
+			n++
+			top := topFn(fn)
+			if top.Pkg == p.SSAPkg(c29ConvPkg) {
+				seenInConv[ok0.k] = true
+			}
+			root := c29MapRoot(mu.Map)
+			key := fmt.Sprintf("C29.ownlabels/%s/%s", fnName(fn), ok0.k.Name())
+			site := p.Pos(mu.Pos())
+			posM := c29PosIn(top, mu)
+			var bad []string
+			undec := ""
+			allInstrs(top, true, func(_ *ssa.Function, w ssa.Instruction) {
+				if w == ssa.Instruction(mu) {
+					return
+				}
+				what := c29Clobber(w, root, 0)
+				if what == "" {
+					return
+				}
+				after := false
+				if w.Parent() == mu.Parent() {
+					after = instrReaches(mu, w)
+				} else {
+					posW := c29PosIn(top, w)
+					if posM == nil || posW == nil {
+						undec = "cannot order " + p.Pos(w.Pos()) + " against the store (closure without a MakeClosure in " + fnName(top) + ")"
+						return
+					}
+					after = posM == posW || instrReaches(posM, posW)
+				}
+				if after {
+					bad = append(bad, fmt.Sprintf("%s at %s", what, p.Pos(w.Pos())))
+				}
+			})
+			sort.Strings(bad)
+			switch {
+			case len(bad) > 0:
+				c.Violate(key, site, "%s stores the Calico-owned label %s (%s) and the same map is written afterwards by %s: a label of that key carried by the pod/resource itself overrides the owned value, so namespace/orchestrator/serviceaccount scoping of converted policies can be forged or escaped",
+					fnName(fn), ok0.k.Name(), kv.ExactString(), strings.Join(bad, "; "))
+			case undec != "":
+				c.Undecided(key, site, "%s", undec)
+			default:
+				c.Ok(key, site, "no user-controlled write into the label map can follow the store of %s", ok0.k.Name())
+			}
+		})
+	}
+	for _, k := range keys {
+		if k.must && !seenInConv[k.k] {
+			c.Lost("no store of the owned label key v3.%s into a label map in %s", k.k.Name(), c29ConvPkg)
+		}
+	}
+	if n == 0 {
+		c.Lost("no store of a Calico-owned label key")
 	}
 }
